@@ -8,6 +8,11 @@ V = os.path.dirname(os.path.dirname(os.path.abspath(__file__)))
 REPO = os.environ.get('VERIF_REPO', '/repo')
 NPROC = int(os.environ.get('VERIF_JOBS', os.cpu_count() or 4))
 SEED = int(os.environ.get('VERIF_SEED', '0') or 0)
+# Where evidence/ and replays/ are written (default /verif).  Runs against seeded / scratch trees set
+# VERIF_OUT (and VERIF_BUILD_SUFFIX) so that they disturb neither the committed evidence nor a
+# concurrent run on /repo.
+OUT = os.environ.get('VERIF_OUT', V)
+BUILD_SUFFIX = os.environ.get('VERIF_BUILD_SUFFIX', '')
 
 class FrameworkError(Exception):
     pass
@@ -15,7 +20,7 @@ class FrameworkError(Exception):
 _built = {}
 def build(cfg, defs='', tag=None):
     """(Re)build /verif/build/<tag>/nsmc from REPO's current working tree."""
-    tag = tag or cfg
+    tag = (tag or cfg) + BUILD_SUFFIX
     key = (cfg, defs, tag)
     if key in _built:
         return _built[key]
@@ -167,7 +172,7 @@ def confirm_and_write_replay(prop, res, v, n):
     argv = job.argv(nsmc, ['--replay', v['schedule']])
     r = subprocess.run(argv, stdout=subprocess.PIPE, stderr=subprocess.PIPE, text=True)
     deterministic = ('deterministic=yes' in r.stdout) and r.returncode == 1
-    d = os.path.join(V, 'replays', prop)
+    d = os.path.join(OUT, 'replays', prop)
     os.makedirs(d, exist_ok=True)
     path = os.path.join(d, '%d.json' % n)
     sig = violation_signature(nsmc, v)
@@ -254,7 +259,7 @@ def finish(prop, tier, level, results, skipped, t0, extra_cov=None, assumptions=
     seen_known = set()
     reported = []
     import shutil
-    shutil.rmtree(os.path.join(V, 'replays', prop), ignore_errors=True)
+    shutil.rmtree(os.path.join(OUT, 'replays', prop), ignore_errors=True)
     sig_seen = {}
     total_viol = sum(len(r['violations']) for r in ok)
     # cheapest counterexamples first (fewest deviations, shortest schedule)
@@ -320,9 +325,9 @@ def finish(prop, tier, level, results, skipped, t0, extra_cov=None, assumptions=
           'assumptions': list(assumptions), 'wall_s': round(time.time() - t0, 2), 'violations': len(reported)}
     if states == 0 or trans == 0:
         errors.append({'job': None, 'error': 'nothing explored'})
-    os.makedirs(os.path.join(V, 'evidence'), exist_ok=True)
+    os.makedirs(os.path.join(OUT, 'evidence'), exist_ok=True)
     validate_evidence(ev)
-    with open(os.path.join(V, 'evidence', prop + '.json'), 'w') as fp:
+    with open(os.path.join(OUT, 'evidence', prop + '.json'), 'w') as fp:
         json.dump(ev, fp, indent=1)
     print('%s %s: %d programs, %d executions, %d states, %d transitions, %d distinct outcomes, exhaustive=%s, %.1fs%s' % (
         prop, tier, len(ok), execs, states, trans, len(outcomes), exhaustive, time.time() - t0,
